@@ -193,3 +193,23 @@ def hvExtendOk {α} (cap : Int) (l s : List α) : Option Unit := if (l.length : 
 def hvExtend {α} (cap : Int) (l s : List α) : List α := if (l.length : Int) + (s.length : Int) ≤ cap then l ++ s else l
 
 end Rt
+
+/-! builder N: assignment through an index (`a[i] = v`: out of bounds is a panic) and
+`(lo..=hi).all(|c| f(c))` with a body that may panic. -/
+namespace Rt
+
+def setIdx {α} (l : List α) (i : Int) (v : α) : Option (List α) :=
+  if 0 ≤ i ∧ i.toNat < l.length then some (l.set i.toNat v) else none
+
+/-- `(lo..=hi).all(f)`: evaluated left to right, stops at the first `false`; `none` = a panic inside `f` -/
+def rangeAllM (lo hi : Int) (f : Int → Option Bool) : Option Bool := go (hi + 1 - lo).toNat lo
+where
+  go : Nat → Int → Option Bool
+    | 0, _ => some true
+    | n + 1, i =>
+      match f i with
+      | none => none
+      | some true => go n (i + 1)
+      | some false => some false
+
+end Rt
